@@ -31,6 +31,10 @@ def run(chk: Check) -> None:
     # "with that value as the result": what a step function returns reaches the work chain unchanged through the coroutine wrapper of the run step (shared with C13)
     from .c13 import step_wrapper_returns_result_unchanged
     step_wrapper_returns_result_unchanged(chk, 'DOM-return-propagation')
+    # "... in every case the result is the return_ code or the value returned by the last step": also when the collected outputs turn out not to satisfy the spec
+    # (the process is then unsuccessful, with the same result) -- shared with C12
+    from .c12 import fallback_keeps_result
+    fallback_keeps_result(chk, 'DOM-return-propagation')
 
 
 def do_step(chk: Check) -> None:
